@@ -3,6 +3,7 @@
 #![allow(dead_code)]
 mod base;
 mod conc;
+mod crash;
 mod drivers;
 mod lock;
 mod seq;
@@ -100,6 +101,8 @@ fn main() {
     let code = match args.get(1).map(|s| s.as_str()) {
         Some("seq") if args.len() >= 4 => cmd_seq(&args[2], &args[3]),
         Some("conc") if args.len() >= 4 => conc::run(&args[2], &args[3]),
+        Some("crashrun") if args.len() >= 4 => crash::crashrun(&args[2], &args[3]),
+        Some("recover") if args.len() >= 4 => crash::recover(&args[2], &args[3]),
         Some("urg") if args.len() >= 4 => urg::run(&args[2], &args[3]),
         Some("shim") => {
             println!("{}", json!({"shim": shimapi::present()}));
